@@ -50,7 +50,7 @@ HSenderDropped ==
 
 \* the stream yields an item: the next one in send order, and one that was sent (C20)
 HItem ==
-    /\ IsEv("h.item")
+    /\ IsEv("h.item") /\ ~fin[E.s]
     /\ E.x = Len(yielded[E.s]) + 1
     /\ IF E.x <= sent[E.s] THEN UNCHANGED <<sent, pendSend>>
        ELSE /\ pendSend[E.s] /\ E.x = sent[E.s] + 1
@@ -68,6 +68,13 @@ HEnd ==
     /\ fin' = [fin EXCEPT ![E.s] = TRUE]
     /\ parked' = parked \ {E.s} /\ wokenUp' = wokenUp \ {E.s}
     /\ UNCHANGED <<sent, yielded, pendSend, lost>> /\ Keep
+
+\* the consumer drops its stream while the sender lives on: nothing more is yielded there, nothing is owed
+HAbandon ==
+    /\ IsEv("h.abandon")
+    /\ fin' = [fin EXCEPT ![E.s] = TRUE]
+    /\ parked' = parked \ {E.s} /\ wokenUp' = wokenUp \ {E.s}
+    /\ UNCHANGED <<sent, open, yielded, pendSend, pendDrop, lost>> /\ Keep
 
 HPending ==
     /\ IsEv("h.pending") /\ parked' = parked \cup {E.s} /\ wokenUp' = wokenUp \ {E.s}
@@ -91,7 +98,7 @@ Ignore ==
     /\ l' = l + 1
     /\ UNCHANGED <<vars, pendSend, pendDrop, lost>>
 
-TraceNext == HScenario \/ HSend \/ HSent \/ HSenderDrop \/ HSenderDropped \/ HItem \/ HEnd \/ HPending
+TraceNext == HScenario \/ HSend \/ HSent \/ HSenderDrop \/ HSenderDropped \/ HItem \/ HEnd \/ HAbandon \/ HPending
              \/ HWoken \/ AMsg \/ Ignore
 TraceSpec == TraceInit /\ [][TraceNext]_tvars
 
